@@ -5,7 +5,9 @@ from harness import circgen as cg, logicsim_corr as lc, oracle_net as on, simops
 
 THEOREMS = ['C01_lut_correct', 'C01_dispatch2_correct', 'C01_select_prim', 'C01_opcodes_injective', 'C01_lanes',
             'C01_build_ops_solution', 'C01_solution_unique', 'C01_logic2_gate_by_gate', 'C01_end_to_end_default', 'C01_build_total',
-            'C01_cycles_iter_sem', 'C01_cycles_are_iter_sem', 'C01_cycle_next_state', 'C01_cycles_no_data_line', 'C01_gates_known_b_sound']
+            'C01_cycles_iter_sem', 'C01_cycles_are_iter_sem', 'C01_cycle_next_state', 'C01_cycles_no_data_line', 'C01_gates_known_b_sound',
+            'C01_model_c_prop_refines', 'C01_model_build_conditions', 'C01_logicsim_model_correct', 'C01_logicsim_model_capture',
+            'C01_cycles_model_correct', 'C01_sim_case2_correct']
 
 
 def oracle_cycles(c, stim_bits, k):
@@ -21,6 +23,25 @@ def oracle_cycles(c, stim_bits, k):
     return st, cap
 
 
+# Constant-zero slot liveness across cycles (Proofs/LogicSimGlue.v zero_kept_g: the slot is pinned, no op ever writes its location).
+# The last SIGNIFICANT read of the constant slot (an unconnected lower pin of g1) is followed only by a 4-input gate, so an
+# allocator that released the slot would hand its location to the line y; from the second cycle on g1 would read the old y.
+ZERO_SLOT = {'nodes': [['b', 'input', 0, 0], ['cc', 'input', 0, 0], ['d', 'input', 0, 0], ['e', 'input', 0, 0], ['ff', 'DFF', 0, 0],
+                       ['g1', 'OR2', 0, 0], ['g2', 'OR2', 0, 0], ['g3', 'AND4', 0, 0], ['y', 'output', 0, 0]],
+             'lines': [[0, 0, 6, 0], [1, 0, 6, 1], [2, 0, 7, 2], [3, 0, 7, 3], [4, 0, 5, 1], [4, 1, 4, 0], [5, 0, 7, 0], [6, 0, 7, 1], [7, 0, 8, 0]],
+             'io': [0, 1, 2, 3, 8]}
+
+
+def targeted_cases():
+    out = []
+    for reuse, strip, k in [(True, False, 2), (True, True, 3), (False, False, 2)]:
+        c = cg.from_description(ZERO_SLOT, name='zero_slot')
+        # s_nodes = b, cc, d, e, y, ff: lane 0 all inputs 1 and state 1 (y = state, toggling), lane 1 state 0
+        stim = np.array([[3, 3], [3, 3], [3, 3], [3, 3], [0, 0], [3, 0]], dtype=np.uint8)
+        out.append((c, 2, stim, reuse, strip, k))
+    return out
+
+
 def run(ck):
     import random
     ok_t = sk.regen_tables(ck)
@@ -32,10 +53,15 @@ def run(ck):
     ncirc = ck.scale(60, 1500)
     coq_cases, meta, so_cases, sol_cases, line_cases = [], [], [], [], []
     fails = []
-    for i in range(ncirc):
-        c, a, sims, stim = sk.gen_case(rng, nrng, [0, 3])
-        reuse, strip = rng.random() < 0.5, rng.random() < 0.5
-        k = rng.choice([1, 1, 2, 3, 5])
+    dom_circs = []
+    targeted = targeted_cases()
+    for i in range(ncirc + len(targeted)):
+        if i < ncirc:
+            c, a, sims, stim = sk.gen_case(rng, nrng, [0, 3])
+            reuse, strip = rng.random() < 0.5, rng.random() < 0.5
+            k = rng.choice([1, 1, 2, 3, 5])
+        else:
+            c, sims, stim, reuse, strip, k = targeted[i - ncirc]
         res, err = sk.safe(lc.run_logicsim, c, 2, stim, reuse, strip, k)
         desc = {'circuit': cg.describe(c), 'c_reuse': reuse, 'strip_forks': strip, 'cycles': k, 'stimulus': stim.tolist()}
         ck.count(sims, f'sims={sims}')
@@ -46,6 +72,7 @@ def run(ck):
         sim, s1, s0 = res
         mask = lc.ppo_mask(sim)
         ck.nontrivial(sk.circuit_fingerprint(c))
+        dom_circs.append(c)
         # oracle: gate-by-gate evaluation, k-fold next-state function
         for lane in range(sims):
             st, cap = oracle_cycles(c, (stim[:, lane] == 3).astype(int).tolist(), k)
@@ -63,7 +90,7 @@ def run(ck):
             meta.append(dict(desc, lane=lane))
             line_cases.append(lc.case_line(c, strip, k, (stim[:, lane] == 3).tolist(), (s0[:, lane] == 3).tolist(),
                                            ((s1[:, lane] == 3) & mask).tolist()))
-        if i % 3 == 0:
+        if i % 3 == 0 or i >= ncirc:
             _, d = sc.run_impl(c, 1, 1, reuse, strip)
             so_cases.append((c, 1, 1, reuse, strip, d))
             nlc = cg.coq_netlist(c)
@@ -105,10 +132,14 @@ def run(ck):
     ck.obligation(f'line-level k-cycle iteration line_cycles / line_cycles_strip (Model/CycleSem.v, object of C01_cycles_are_iter_sem) = '
                   f's[0], s[1] after LogicSim.cycle(k) on {len(line_cases)} lanes, for every c_reuse / strip_forks setting',
                   lran and not lmism, 'correspondence', f'failing cases {lmism[:10]}' if lran else louts[0][1][-600:])
+    # the hypotheses of the model-level theorems (C01_logicsim_model_correct, C01_cycles_model_correct, C01_sim_case2_correct: the compared
+    # model sim_case2 itself computes the k-fold next-state function) discharged per generated circuit
+    sc.run_domain(ck, dom_circs[::2], 'model-level end-to-end theorems', min_frac=0.2)
     ck.trust('modelled, not verified: SimOps.__init__ and LogicSim s_to_c/c_prop/c_to_s/s_ppo_to_ppi/cycle (hand-written Gallina '
-             'in Model/SimOps.v, Model/LogicSimModel.v, tied by exact comparison on generated circuits); the main end-to-end '
-             'theorem (netlist semantics) is not yet proved as one statement; the multi-cycle theorems (C01_cycles_are_iter_sem) are about the '
-             'line-level iteration of Model/CycleSem.v, tied to LogicSim.cycle by exact comparison of s[0], s[1] after k cycles')
+             'in Model/SimOps.v, Model/LogicSimModel.v, tied by exact comparison on generated circuits).  Proved about that model '
+             '(Proofs/LogicSimGlue.v): for every well-formed acyclic netlist of known gates, all c_reuse / strip_forks settings and every '
+             'stimulus the compared entry point sim_case2 returns the k-fold synchronous Boolean semantics (C01_sim_case2_correct); '
+             'outside that domain (output-less gates, unknown kinds, forks without input) the tie is correspondence + per-case certificates')
     for kind, desc, what in fails[:5]:
         ck.fail(f'logicsim2:{kind}', 'LogicSim(m=2) ' + what, {'component': 'logic_sim.LogicSim m=2', 'input': desc, 'actual': what})
     if not fails:
